@@ -334,3 +334,51 @@ def r9_6(ctx):
             vals = dict(zip(fields, e[3]))
             init_ok = all(vals[k] == ("const", 0) for k in ("wtime", "btime", "winc", "binc")) and vals["movestogo"][0] == "agg" and vals["movestogo"][2] == "None"
     ctx.ob("parse_go_command:fresh-clock-per-go", init_ok, b.file, "every go starts from wtime = btime = winc = binc = 0 and movestogo = None")
+
+
+def r9_8(ctx):
+    """The instant the deadline is measured from is taken after the `go` line has been read: in the
+    command loop the `Instant::now()` whose value reaches find_and_play_best_move cannot be executed
+    before the read of the same iteration (otherwise the time the engine sat idle waiting for input is
+    charged to the move)."""
+    f = ctx.facts
+    if not f.has_body(LOOP_FN):
+        raise AnchorMissing(LOOP_FN)
+    b = f.body(LOOP_FN)
+    ctx.note_fn(LOOP_FN)
+    ex = Exprs(b)
+    finds = b.calls_to(FIND)
+    if not finds:
+        raise AnchorMissing("play_game_uci does not call find_and_play_best_move")
+    reads = {bb for bb, t in b.iter_calls() if (callee_of(t) or "").endswith("uci::read_from_gui")}
+    loops = b.loops()
+    n = 0
+    for fbb, ft in finds:
+        inl = [h for h, body_ in loops.items() if fbb in body_]
+        if not inl:
+            continue
+        h = max(inl, key=lambda hh: len(loops[hh]))
+        loop = loops[h]
+        lreads = {r for r in reads if r in loop}
+        for i, a in enumerate(ft["args"]):
+            if ft["arg_tys"][i] != "std::time::Instant" if i < len(ft.get("arg_tys", [])) else True:
+                continue
+            n += 1
+            e = strip_refs(ex.operand(a, b.term_loc(fbb)))
+            nows = [x for x in subexprs(e) if x[0] == "call" and x[1].endswith("Instant::now")]
+            src = None
+            if e[0] == "call" and e[1].endswith("Instant::now") and e[3] is not None:
+                src = e[3][0]
+            elif e[0] == "var":
+                # merged definitions: every one must be a now() taken after the read
+                src = [d[0][0] for d in e[2]]
+            if src is None:
+                ctx.ob("go:start-instant#%d" % n, False, b.where(b.term_loc(fbb)), "the start instant handed to find_and_play_best_move is not `Instant::now()` of this iteration: `%s`" % show_expr(e, b)[:60])
+                continue
+            srcs = src if isinstance(src, list) else [src]
+            bad = [s_ for s_ in srcs if s_ not in loop or not lreads or (h not in lreads and (s_ == h or b.reaches(h, s_, removed_nodes=lreads)))]
+            ctx.ob("go:start-instant#%d" % n, not bad, b.where(b.term_loc(srcs[0])),
+                   "the clock of a `go` starts after its line has been read (Instant::now() at %s, read at %s)%s" % (
+                       b.where(b.term_loc(srcs[0])), [b.where(b.term_loc(r)) for r in sorted(lreads)][:1],
+                       "" if not bad else ": NOT so - the instant is taken before the blocking read, so the time spent waiting for the line is deducted from the thinking time"))
+    ctx.floor("start instants handed to the search", n, 1)
